@@ -11,6 +11,7 @@ Directives (each on its own line):
   //@struct <file> <Name> [keep=a,b] [drop=x,y]     copy a struct definition (R4 projection)
   //@enum   <file> <Name>                           copy an enum definition
   //@const  <file> <NAME>                           copy a const item
+  //@macro  <file> <name>                           copy a macro_rules! definition (rules R0-R2 applied)
   //@fn <file> <[Type::]name> [props=C01,C02] [stub] [ret=r] [impl=<Trait for Type>]
       ... contract lines (requires/ensures/decreases, copied verbatim after the signature) ...
       //@@loop <n> [iter=<ident>]       following lines are the loop's invariant/decreases clauses
@@ -731,6 +732,21 @@ def process_template(template_path, repo_root, include_dirs=(), restrict=()):
             tk = s.split()
             kv, _ = parse_kv(tk[3:])
             emit(extract_enum(repo, tk[1], tk[2], items, kv['noderive'].split(',') if 'noderive' in kv else None))
+            i += 1
+            continue
+        if s.startswith('//@macro '):
+            tk = s.split()
+            raw, src = repo.src(tk[1])
+            mm = list(re.finditer(r'(?m)^[ \t]*macro_rules!\s+' + re.escape(tk[2]) + r'\s*\{', src))
+            if len(mm) != 1:
+                raise ExtractError("macro %s: %d hits" % (tk[2], len(mm)))
+            o = mm[0].end() - 1
+            e = match_close(src, o, '{', '}')
+            mtext, _ = strip_logs(src[mm[0].start():e + 1])
+            mtext, _ = replace_format(mtext)
+            emit(squeeze_blank(mtext))
+            items.append({'kind': 'macro', 'name': tk[2], 'file': tk[1], 'lines': [line_of(src, mm[0].start()), line_of(src, e)],
+                          'sha256': hashlib.sha256(src[mm[0].start():e + 1].encode()).hexdigest()})
             i += 1
             continue
         if s.startswith('//@lemma '):
